@@ -29,11 +29,14 @@ def days(t):
     return '203001%02d' % (1 + t // 86400)
 
 
-def task_ics(uid, occ, maxsim=0, owner=None, dur=None, method='PUBLISH', extra=(), allday=False):
+def task_ics(uid, occ, maxsim=0, owner=None, dur=None, method='PUBLISH', extra=(), allday=False, past_rule=False):
     """one VEVENT whose occurrences are exactly occ (seconds after T0), as an RDATE list; allday: occ are whole days, written as DATEs"""
     if allday:
         L = ['BEGIN:VEVENT', 'UID:' + uid, 'SUMMARY:echo ' + uid, 'DTSTART;VALUE=DATE:' + days(min(occ) if occ else 0)]
         if occ: L.append('RDATE;VALUE=DATE:' + ','.join(days(t) for t in occ))
+    elif past_rule and len(occ) == 1 and 0 <= occ[0] < 86400:
+        # the same single occurrence as the last one of a daily rule that started in 1997
+        L = ['BEGIN:VEVENT', 'UID:' + uid, 'SUMMARY:echo ' + uid, 'DTSTART:19970101T' + secs(occ[0])[9:], 'RRULE:FREQ=DAILY;UNTIL=' + secs(occ[0])]
     else:
         L = ['BEGIN:VEVENT', 'UID:' + uid, 'SUMMARY:echo ' + uid, 'DTSTART:' + secs(min(occ) if occ else 0)]
         if occ: L.append('RDATE:' + ','.join(secs(t) for t in occ))
@@ -50,7 +53,7 @@ def request(items, method='PUBLISH'):
     L = ['BEGIN:VCALENDAR', 'VERSION:2.0', 'METHOD:' + method]
     for it in items:
         if it['kind'] == 'add':
-            L += task_ics(it['uid'], it['occ'], it.get('maxsim', 0), it.get('owner_uid', it.get('owner_name')), it.get('dur'), extra=it.get('extra', ()), allday=it.get('allday', False))
+            L += task_ics(it['uid'], it['occ'], it.get('maxsim', 0), it.get('owner_uid', it.get('owner_name')), it.get('dur'), extra=it.get('extra', ()), allday=it.get('allday', False), past_rule=it.get('past_rule', False))
         else:
             L += ['BEGIN:VEVENT', 'UID:' + it['uid'], 'DTSTART:' + secs(0), 'END:VEVENT']
     L += ['END:VCALENDAR', '']
@@ -152,6 +155,7 @@ def random_script(rnd, ntasks=3, peers=(1000,), horizon=14, maxsims=(0, 0, 1, 2)
         occ = sorted(rnd.choice(pool) for _ in range(n))
         if rnd.random() < 0.7: occ = sorted(set(occ))
         it = {'kind': 'add', 'uid': uid, 'occ': occ, 'maxsim': rnd.choice(maxsims), 'peer': rnd.choice(peers)}
+        if len(occ) == 1 and rnd.random() < 0.35: it['past_rule'] = True     # written as a rule that has been going since 1997 and ends with this occurrence
         metas[len(cmds)] = [it]
         cmds.append(areq(rnd, it['peer'], request([it])))
     for u in uids:
@@ -162,7 +166,8 @@ def random_script(rnd, ntasks=3, peers=(1000,), horizon=14, maxsims=(0, 0, 1, 2)
         elif x < 0.30: cmds.append('R')
         elif x < 0.62: cmds.append('D\t%d' % rnd.randint(0, 5))
         elif x < 0.70: cmds.append('DA')
-        elif x < 0.86: cmds.append('XI\t%d' % rnd.randint(0, 5))
+        elif x < 0.855: cmds.append('XI\t%d' % rnd.randint(0, 5))
+        elif x < 0.86: cmds.append('FS\t%d' % rnd.choice([1, 1, 2]))                                    # one of the next starts fails (EAGAIN)
         elif x < 0.88: cmds.append('%s\t%d' % (rnd.choice(['XS', 'XC', 'XC']), rnd.randint(0, 5)))       # a running job is stopped / continued
         elif x < 0.95: add(rnd.choice(uids))
         elif cancel:
